@@ -19,6 +19,7 @@ pub struct Tracking;
 
 const LIVE_CAP: usize = 1 << 16; // open addressed table of tracked live blocks.
 const QUAR_CAP: usize = 1 << 16;
+const QSET_CAP: usize = 1 << 18;
 const PIN_CAP: usize = 256;
 const INC_CAP: usize = 256;
 
@@ -57,6 +58,8 @@ struct Tables {
     inc_len: usize,
     serial: usize,
     quarantined_bytes: usize,
+    /// Open addressed set of quarantined block addresses (0 = empty).
+    qset: [usize; QSET_CAP],
 }
 
 struct Global(UnsafeCell<Tables>);
@@ -73,6 +76,7 @@ static TABLES: Global = Global(UnsafeCell::new(Tables {
     inc_len: 0,
     serial: 0,
     quarantined_bytes: 0,
+    qset: [0; QSET_CAP],
 }));
 
 /// Spin lock protecting `TABLES` (the allocator may be called from several
@@ -107,7 +111,7 @@ fn tables(_: &Guard) -> &mut Tables {
 }
 
 fn hash(ptr: usize) -> usize {
-    (ptr >> 4).wrapping_mul(0x9E37_79B9_7F4A_7C15) >> (64 - 16)
+    (ptr >> 4).wrapping_mul(0x9E37_79B9_7F4A_7C15) >> (64 - 20)
 }
 
 impl Tables {
@@ -141,6 +145,25 @@ impl Tables {
             }
         }
         None
+    }
+
+    fn qset_insert(&mut self, ptr: usize) {
+        let mut i = hash(ptr) & (QSET_CAP - 1);
+        while self.qset[i] != 0 {
+            i = (i + 1) & (QSET_CAP - 1);
+        }
+        self.qset[i] = ptr;
+    }
+
+    fn qset_contains(&self, ptr: usize) -> bool {
+        let mut i = hash(ptr) & (QSET_CAP - 1);
+        while self.qset[i] != 0 {
+            if self.qset[i] == ptr {
+                return true;
+            }
+            i = (i + 1) & (QSET_CAP - 1);
+        }
+        false
     }
 
     fn incident(&mut self, incident: Incident) {
@@ -185,11 +208,9 @@ unsafe impl GlobalAlloc for Tracking {
         let guard = lock();
         let t = tables(&guard);
         // Double free?
-        for i in 0..t.quar_len {
-            if t.quarantine[i].ptr == addr {
-                t.incident(Incident::DoubleFree { ptr: addr, size: layout.size() });
-                return;
-            }
+        if t.qset_contains(addr) {
+            t.incident(Incident::DoubleFree { ptr: addr, size: layout.size() });
+            return;
         }
         for i in 0..t.pin_len {
             let pin = t.pins[i];
@@ -204,6 +225,7 @@ unsafe impl GlobalAlloc for Tracking {
             let serial = t.serial;
             t.quarantine[t.quar_len] = Block { ptr: addr, size: layout.size(), align: layout.align(), serial };
             t.quar_len += 1;
+            t.qset_insert(addr);
             t.quarantined_bytes += layout.size();
             // Poison, so stale reads are recognisable.
             unsafe { ptr.write_bytes(0xDE, layout.size()) };
@@ -269,6 +291,12 @@ pub fn end() -> (Vec<(usize, usize, usize)>, Vec<Incident>) {
         let t = tables(&guard);
         for i in 0..t.quar_len {
             to_free.push(t.quarantine[i]);
+            // Remove from the address set (the set is rebuilt empty for the next history).
+            let mut j = hash(t.quarantine[i].ptr) & (QSET_CAP - 1);
+            while t.qset[j] != 0 {
+                t.qset[j] = 0;
+                j = (j + 1) & (QSET_CAP - 1);
+            }
         }
         t.quar_len = 0;
         t.quarantined_bytes = 0;
